@@ -1,14 +1,14 @@
 from lib.driver import Ob
 
 LEVEL = 'model_checking'
-EXPLANATION = ('The real NumberWithUnitParser.parse / BaseCurrencyParser.parse run (symx, index space enumerated through the solver) on every listed English spelling of a batch in '
+EXPLANATION = ('The real NumberWithUnitParser.parse / BaseCurrencyParser.parse run (symx, index space enumerated through the solver) on every listed spelling of a batch (English; fr, es, pt, de, it, nl, zh through harness/C05c.py) in '
                'four layouts (suffix/prefix, with/without blank), number lengths 1..3 and both letter cases; the unit must be the canonical name an independent reading of the '
-               'tables gives, the number the inner parser\'s resolution, the ISO code the table\'s. bind_dictionary is checked on all small dictionaries. The compound-currency sum '
-               'N + M * (1/ratio) is examined with z3 floating-point queries against one correctly rounded division.')
+               'tables gives, the number the inner parser\'s resolution, the ISO code the table\'s. bind_dictionary is checked on all small dictionaries. The real compound-currency merge code runs on traced numbers for all 157 main/fraction pairs (z3 LRA); its '
+               'double-precision term is examined with z3 floating-point queries against one correctly rounded division.')
 ASSUMPTIONS = ['the inner number parser is a stub returning a fixed resolution string (the numeral itself is C03)', 'the unit entity text is "<number><blank?><spelling>" or "<spelling><blank?><number>" with the number span relative to it',
                'quick tier covers a quarter of the spelling batches per entity type, thorough all']
-OUTSIDE = ['cultures other than English', 'the extractor side (StringMatcher over the tables: C16 for the matcher itself)', 'half / connector-token / bracketed units',
-           'compound currency control flow beyond the arithmetic (which units may follow which)', 'floating-point claim only for N < 2^10 (bit-blasting cost)']
+OUTSIDE = ['the extractor side (StringMatcher over the tables: C16 for the matcher itself)', 'half / connector-token / bracketed units',
+           'compound amounts with more than one fraction part or an inner bare number', 'floating-point claim only for N < 2^10 (bit-blasting cost)']
 P = 'recognizers_number_with_unit.number_with_unit.'
 COUNTS = {'currency': 1048, 'dimension': 570, 'temperature': 54, 'age': 34}
 
